@@ -1265,7 +1265,12 @@ func modI(x, y Integer) (Integer, error) {
 	if y == 0 {
 		return 0, exceptionalValueZeroDivisor
 	}
-	return x - (Integer(math.Floor(float64(x)/float64(y))) * y), nil
+	// x % y has the sign of x; the modulo has the sign of y.
+	r := x % y
+	if r != 0 && (r < 0) != (y < 0) {
+		r += y
+	}
+	return r, nil
 }
 
 func negI(x Integer) (Integer, error) {
@@ -1309,7 +1314,12 @@ func intFloorDivI(x, y Integer) (Integer, error) {
 	case y == 0:
 		return 0, exceptionalValueZeroDivisor
 	default:
-		return Integer(math.Floor(float64(x) / float64(y))), nil
+		// x / y truncates; the floor is one less iff the division is inexact and the signs differ.
+		q := x / y
+		if x%y != 0 && (x < 0) != (y < 0) {
+			q--
+		}
+		return q, nil
 	}
 }
 
